@@ -89,6 +89,8 @@ def run(ctx, rng, model=None, n_quick=10, n_thorough=120):
     for k in range(n_files):
         n, bs, q = gen.geometry_3d(rng, klass=['default', 'general', 'zslice', None][k % 4], max_voxels=30_000)
         n = tuple(max(v, 3) for v in n)
+        if n[2] < 6:
+            n = (n[0], n[1], 6)    # at least two groups of four samples (results of different groups held together below)
         il = (int(rng.integers(-20, 50)), int(rng.choice([1, 2, -1, -3])))
         xl = (int(rng.integers(-20, 50)), int(rng.choice([1, 3, -2])))
         if k % 3 == 1:   # line number 0 on the axis, at any position (first, inside, last)
@@ -109,6 +111,23 @@ def run(ctx, rng, model=None, n_quick=10, n_thorough=120):
                 _eq(ctx, 'depth_slice[-k]', lambda: f.depth_slice[s - n[2]], V[:, :, s], inp)
                 _eq(ctx, 'trace[k]', lambda: f.trace[t], V[t // n[1], t % n[1]], inp)
                 _eq(ctx, 'trace[-k]', lambda: f.trace[t - n[0] * n[1]], V[t // n[1], t % n[1]], inp)
+                # two results of the same accessor held at the same time (first and last item): a result must not be a view of
+                # memory the next read rewrites
+                for nm_, acc_, k0, k1, w0, w1 in (('depth_slice', f.depth_slice, 0, n[2] - 1, V[:, :, 0], V[:, :, n[2] - 1]),
+                                                  ('iline', f.iline, fi.il[0], fi.il[-1], V[0], V[n[0] - 1]),
+                                                  ('xline', f.xline, fi.xl[0], fi.xl[-1], V[:, 0], V[:, n[1] - 1]),
+                                                  ('trace', f.trace, 0, n[0] * n[1] - 1, V[0, 0], V[n[0] - 1, n[1] - 1])):
+                    try:
+                        r0 = acc_[k0]
+                        r1 = acc_[k1]
+                        both = (np.asarray(r0), np.asarray(r1))
+                    except Exception as e:  # noqa
+                        ctx.fail(f'{nm_}[first], {nm_}[last] raised {type(e).__name__}: {str(e)[:100]}', dict(inp, expr=nm_))
+                        continue
+                    ctx.stats['accessor_exprs'] += 1
+                    if not (readops.same(both[0], np.asarray(w0)) and readops.same(both[1], np.asarray(w1))):
+                        ctx.fail(f'{nm_}[first] and {nm_}[last] held together: the first result changed when the second was read',
+                                 dict(inp, expr=f'{nm_}[{k0}], {nm_}[{k1}]'))
                 a, b = sorted(rng.choice(n[0] * n[1] + 1, size=2, replace=False).tolist())
                 st = int(rng.choice([1, 2, 3]))
                 _eq(ctx, 'trace[a:b:c]', lambda: np.array(f.trace[a:b:st]),
